@@ -124,10 +124,18 @@ Send ==
   /\ Run(twm, "send", IF AL > 0 THEN Append(open, [ws |-> pend.ws, snap |-> pend.rows]) ELSE open)
   /\ UNCHANGED <<maxTs, wmCur, wmSent, wmChan, emitted>>
 
-Quiet == tpc = "idle" /\ wmChan = <<>>
+\* Watermark.update (ticker, every WatermarkInterval): re-send a watermark that did not fit into the full channel.
+\* It takes only the watermark's own lock, so it may interleave anywhere.
+Tick ==
+  /\ wmCur > wmSent /\ Len(wmChan) < ChanCap
+  /\ wmChan' = Append(wmChan, wmCur) /\ wmSent' = wmCur
+  /\ hist' = Append(hist, [a |-> "tick"])
+  /\ UNCHANGED <<data, cur, maxTs, wmCur, open, tpc, twm, pend, out, emitted>>
+
+Quiet == tpc = "idle" /\ wmChan = <<>> /\ wmSent = wmCur
 Complete == Len(emitted) = MaxEv /\ Quiet
 
-Next == (\E ts \in 0..MaxTs : Add(ts)) \/ Trig \/ Send
+Next == (\E ts \in 0..MaxTs : Add(ts)) \/ Trig \/ Send \/ Tick
 
 Spec == Init /\ [][Next]_vars
 
